@@ -90,6 +90,11 @@ def gather_states(tier, run, budget=None, extra_models=True):
             if m not in seen:
                 res.append((m, tr, 'import-reasons', ('aliases', 'annotations', 'docs', 'imports', 'ns', 'routes', 'unions', 'wrappers'), 3))
         run.bounds['import_reason_models'] = len(irm)
+        dim = profiles.deep_inheritance_models()
+        for m, tr in dim:
+            if m not in seen:
+                res.append((m, tr, 'deep-inheritance', ('defaults', 'imports', 'inherit', 'uinherit', 'ns', 'routes', 'unions', 'wrappers'), 3))
+        run.bounds['deep_inheritance_models'] = len(dim)
     return res
 
 
